@@ -15,7 +15,7 @@ struct GT {                       // ground truth: each link decoded on its own 
   }
 };
 
-struct ChainOpts { int maxlinks = 4; int64_t maxN = 30000; bool allow_zero = true; int maxch = 6; bool comments = true; bool multiplex = false; bool half = false; bool even_interior = false; int vgen_pct = 0; int vgen_min_bslog = 6; int vgen_64_pct = 25; bool vgen_big = false; int vgen_maxch = 0; };
+struct ChainOpts { int maxlinks = 4; int64_t maxN = 30000; bool allow_zero = true; int maxch = 6; bool comments = true; bool multiplex = false; bool half = false; bool even_interior = false; int vgen_pct = 0; int vgen_min_bslog = 6; int vgen_64_pct = 25; bool vgen_big = false; int vgen_maxch = 0; int gp_offset_pct = 0; };
 
 static const long kVfRates[] = {44100, 8000, 22050, 16000, 11025, 48000, 32000, 12000, 24000, 96000};
 
@@ -92,6 +92,11 @@ static inline bool gen_chain(Tape &t, Report &r, const ChainOpts &o, Chain &c, G
     std::vector<int> pieces; if (N) pieces.push_back((int)N); std::vector<char> da; std::string err;
     if (enc_feed(e, m.cfg.channels, m.sig, N, pieces, da, s, err) != 0) return r.harness("encode failed: %s", err.c_str());
     }
+    // a link that starts at a positive granule position (cut out of a longer stream): every position is shifted, lengths stay
+    if (o.gp_offset_pct && g_tape_gen >= 3 && (int)t.below(100) < o.gp_offset_pct && s.audio.size() >= 3) {
+      static const int64_t offs[] = {1, 1000, 44100, 1 << 20, 123456789, (int64_t)1 << 40}; s.gp_offset = offs[t.below(6)];
+      for (auto &p : s.audio) p.granulepos += s.gp_offset; r.label("link starting at a positive granule position");
+    }
     m.lay = Layout::gen(t); lays.push_back(m.lay);
     DecodeResult d;
     if (!decode_packets(s, d)) return r.harness("link %d does not decode at packet level", i);
@@ -103,6 +108,7 @@ static inline bool gen_chain(Tape &t, Report &r, const ChainOpts &o, Chain &c, G
     }
     g.pcm.push_back(d.pcm); g.start.push_back(g.total); g.len.push_back(N); g.total += N;
     desc += sfmt("L%d{ch=%d rate=%ld q=%.1f m=%d bs=%d/%d N=%lld pk=%zu ser=%d sig=%d/%g %s} ", i, m.cfg.channels, m.cfg.rate, m.cfg.quality, m.cfg.mode, s.bs0, s.bs1, (long long)N, s.audio.size(), s.serial, m.sig.kind, m.sig.amp, m.lay.desc().c_str());
+    if (s.gp_offset) { desc.pop_back(); desc.pop_back(); desc += sfmt(" gp0=%lld} ", (long long)s.gp_offset); }
     c.links.push_back(std::move(s)); meta.push_back(std::move(m));
   }
   build_chain(c, lays);
